@@ -1,30 +1,29 @@
-"""Demonstration (not a check): a FailedSemantics raised by constant evaluation inside an
-option/optional/closure leaks state frames (their handlers only catch FailedParse).
+"""Demonstration (not a check): a failure raised by constant evaluation inside an
+option/optional/closure leaked state frames (their handlers only catch FailedParse) before fix 75cc8ee.
 exit 1 = defect present."""
 import sys
 import tatsu
 
-# `1/0` is a constant whose evaluation fails -> FailedSemantics inside the first option, within an optional.
-g = r"""
-start: (a | b) $
+base = r"""
+start: n='k' v=(a | b) m='w' $
 
-a: 'x' [ `1/0` ] 'y'
+a: 'x' { %s } 'y'
 
 b: 'x' 'z'
 """
-model = tatsu.compile(g)
-bad = []
-try:
-    r = model.parse('x z')
-    print('model result:', r)
-    if r != ['x', 'z'] and r != ('x', 'z'):
-        bad.append(f'model result {r!r}')
-except Exception as e:  # noqa
-    print('model raised', type(e).__name__, str(e).splitlines()[0][:80])
-    bad.append(f'model raised {type(e).__name__}')
 
-# the same with a plain syntax failure in place of the failing constant
-g2 = g.replace('`1/0`', "'q'")
-print('reference (syntax mismatch instead of failing constant):', tatsu.compile(g2).parse('x z'))
-print('FAIL' if bad else 'PASS', bad)
-sys.exit(1 if bad else 0)
+
+def run(g, text):
+    try:
+        return tatsu.compile(g).parse(text)
+    except Exception as e:  # noqa
+        return f'{type(e).__name__}'
+
+
+got = run(base % '`1/0`', 'k x z w')
+ref = run(base % "'q'", 'k x z w')
+print('failing constant in option a :', got)
+print('syntax mismatch in option a  :', ref)
+ok = got == ref
+print('PASS' if ok else 'FAIL: a semantic failure does not backtrack like a syntax mismatch')
+sys.exit(0 if ok else 1)
